@@ -4,7 +4,6 @@ PROPS = {}
 
 # Properties not (yet) claimed. Kept current by hand; gen_manifest.py copies it.
 NOT_APPLICABLE = {
-    'C15': 'check not built yet in this round (planned, see DESIGN.md section 5)',
 }
 
 PROPS['C17'] = dict(
@@ -357,4 +356,22 @@ PROPS['C14'] = dict(
     require_counters={'soup_builder_meshes': 8000, 'pc_builder_clouds': 8000, 'dedup_geometries': 8000, 'cleanup_meshes/mask7': 800, 'cleanup_meshes/mask0': 800, 'cleanup_meshes/mask2': 800,
                       'strip_sets/primitive-restart': 8000, 'strip_sets/degenerate-triangles': 8000},
     assumptions=[],
+)
+
+PROPS['C15'] = dict(
+    title='Writing a geometry to OBJ/PLY/STL and reading it back preserves it',
+    technique='runtime monitoring: per-format write->read oracle (bit-exact for PLY/STL, 6-decimal text tolerance + seam/connectivity relation for OBJ) and differential check of the real CLI tools against the in-library composition',
+    level='exploration',
+    level_text=('Generated meshes / point clouds restricted to what each format represents (float positions 1e-6..1e6 incl. +-0 and values that round at the 6th decimal, optional float normals, 2-component tex coords, '
+                'uint8 colours; all C01 topologies incl. seams, duplicated / mirrored / degenerate faces) are written with ObjEncoder / PlyEncoder / StlEncoder and read back with the matching decoder: PLY and STL '
+                'face-by-face bit-exact (PLY point clouds as point sets), OBJ face-by-face within 5e-7 + 2^-23*|v| with "same input entry => same output entry" and "merged entries had text-equal values". Every 150th '
+                'case runs the real draco_encoder (lossless options, random -cl) and draco_decoder binaries on the OBJ file: the tool stream must equal the library stream byte for byte, the tool output file must equal '
+                'the in-library composition, and no triangle may be added.'),
+    level_note='Sampled. Formats facts built into the expectation: OBJ carries no colours / NaN; the PLY reader forces normalized colours and deduplicates; the STL reader adds a per-face normal attribute (only the position soup is compared).',
+    rule='case k: k mod 3 selects OBJ / PLY / STL; every 150th case is a CLI composition. Non-trivial = geometry has >= 1 face (point); distinct = hash of the written file.',
+    runs=[dict(variant='plain', harness='c15_io', cases=dict(quick=24000, thorough=600000), extra=['--bin-dir', 'build/plain/draco_sub'], build_targets=['draco_encoder', 'draco_decoder']),
+          dict(variant='asan', harness='c15_io', tag='asan-slice', cases=dict(quick=3000, thorough=60000))],
+    min_nontrivial=10000,
+    require_counters={'format/obj': 5000, 'format/ply': 5000, 'format/stl': 5000, 'format/cli': 100, 'cli_output/ply': 20, 'cli_output/obj': 50, 'ply_point_clouds': 1000},
+    assumptions=['CLI cases need the draco_encoder / draco_decoder binaries built from the tree under test (build target of the plain variant)'],
 )
